@@ -486,6 +486,14 @@ def rule_det3(prog, rep, tier, scope=None):
             if isinstance(x, ast.Global) and enclosing_fn(x) is f or (isinstance(x, ast.Global) and x in node.body):
                 n += 1
                 rep.violation(Finding("DET-3", prog.owner_name(f), "global:%s" % ",".join(x.names), "`global %s` lets the function rebind module state that later calls read" % ",".join(x.names), loc(prog, x)))
+            if isinstance(x, ast.Call) and enclosing_fn(x) is f and f.cls is not None and isinstance(x.func, ast.Attribute) and x.func.attr in ("visit", "generic_visit") \
+                    and isinstance(x.func.value, ast.Name) and x.func.value.id == "self" and x.args and isinstance(x.args[0], ast.Attribute) \
+                    and isinstance(x.args[0].value, ast.Name) and x.args[0].value.id == "self" and "NodeTransformer" in f.cls.base_names():
+                # a NodeTransformer run over a tree it keeps in an attribute: the tree is edited in place and stays edited
+                n += 1
+                rep.violation(Finding("DET-3", prog.owner_name(f), "transformer-on-own-attribute:%s" % x.args[0].attr,
+                                      "%s transforms the tree kept in self.%s in place (NodeTransformer edits the nodes it visits): the next use of the same object starts "
+                                      "from the already transformed tree, so the result depends on the calls made before" % (src(x, 60), x.args[0].attr), loc(prog, x)))
             if isinstance(x, ast.Call) and enclosing_fn(x) is f:
                 # globals().update / globals()[k] = v handled below for subscripts
                 if isinstance(x.func, ast.Attribute) and x.func.attr in MUTATORS:
